@@ -11,7 +11,8 @@ import tempfile
 MODULES = ["error", "format", "token", "term", "de_bruijn", "evaluator", "parser"]
 TARGET_OF = {"step_strict": "step", "evaluate": "step"}
 KNOWN = {"signed_shift", "unsigned_shift", "open", "free_variables", "is_value", "step",
-         "reassociate_applications", "reassociate_products_and_quotients", "reassociate_sums_and_differences"}
+         "reassociate_applications", "reassociate_products_and_quotients", "reassociate_sums_and_differences", "packrat_complete"}
+PACKRAT_COUNT = 25000   # each case runs an exhaustive derivation search over grammar.y: about 1 ms
 
 
 def build(repo, verif, scratch):
@@ -32,10 +33,14 @@ def build(repo, verif, scratch):
     return os.path.join(scratch, "target", "release", "gram-witness")
 
 
-def run_targets(binary, targets, seed, count):
+def run_targets(binary, targets, seed, count, repo="/repo"):
     for t in targets:
         try:
-            r = subprocess.run([binary, t, str(seed), str(count)], capture_output=True, text=True, timeout=300)
+            cmd = [binary, t, str(seed), str(count)]
+            if t.startswith("packrat"):
+                g = os.path.join(repo, "grammar.y")
+                cmd = [binary, t, str(seed), str(min(count, PACKRAT_COUNT)), g if os.path.exists(g) else "/repo/grammar.y"]
+            r = subprocess.run(cmd, capture_output=True, text=True, timeout=600)
             out = json.loads(r.stdout.strip().split("\n")[-1])
         except Exception:
             continue
@@ -48,6 +53,9 @@ def search(prop, failed, repo, verif, seed=1, count=300000):
     targets = []
     for f in failed:
         t = TARGET_OF.get(f.get("function"), f.get("function"))
+        if f.get("name", "").startswith("packrat/"):
+            # any obligation of the recogniser unit: real parse_term / parse() vs the derivations of grammar.y
+            t = "packrat_complete"
         if t in KNOWN and t not in targets:
             targets.append(t)
     if not targets:
@@ -55,14 +63,14 @@ def search(prop, failed, repo, verif, seed=1, count=300000):
     scratch = tempfile.mkdtemp(prefix="gramwit.", dir="/var/tmp")
     try:
         binary = build(repo, verif, scratch)
-        out = run_targets(binary, targets, seed, count)
+        out = run_targets(binary, targets, seed, count, repo)
         if not out:
             return None
         return {
             "summary": f"{out['input']}  ->  real code: {out['real']}   reference semantics: {out['reference']}",
             "target": out["target"], "seed": seed, "count": count,
             "input": out["input"], "real": out["real"], "reference": out["reference"],
-            "method": "bounded random differential test of the real function (copied from /repo's working tree) against witness/src/reference.rs; auxiliary, never decides",
+            "method": "bounded random differential test of the real function (copied from /repo's working tree) against witness/src/reference.rs (packrat unit: random sentences of grammar.y and near misses, real parse_term / parse() against an exhaustive derivation search over /repo/grammar.y, witness/src/grammar.rs); auxiliary, never decides",
         }
     finally:
         shutil.rmtree(scratch, ignore_errors=True)
@@ -73,7 +81,7 @@ def replay(witness, repo, verif):
     scratch = tempfile.mkdtemp(prefix="gramwit.", dir="/var/tmp")
     try:
         binary = build(repo, verif, scratch)
-        return run_targets(binary, [witness["target"]], witness.get("seed", 1), witness.get("count", 300000))
+        return run_targets(binary, [witness["target"]], witness.get("seed", 1), witness.get("count", 300000), repo)
     finally:
         shutil.rmtree(scratch, ignore_errors=True)
 
@@ -87,12 +95,20 @@ def sanity(repo, verif, targets, seed=1, count=100000):
     out = {}
     try:
         binary = build(repo, verif, scratch)
-        for t in list(targets) + ["bigint_contract"]:
+        todo = list(targets) + ["bigint_contract"]
+        if any(t.startswith("parse_") for t in targets):
+            # recogniser unit: soundness/tree AND (not covered by any contract) completeness, on random sentences + near misses
+            todo.append("packrat_complete")
+        for t in todo:
             t2 = TARGET_OF.get(t, t)
             if t2 not in KNOWN and t2 != "bigint_contract":
                 continue
             try:
-                r = subprocess.run([binary, t2, str(seed), str(count)], capture_output=True, text=True, timeout=600)
+                cmd = [binary, t2, str(seed), str(count)]
+                if t2.startswith("packrat"):
+                    g = os.path.join(repo, "grammar.y")
+                    cmd = [binary, t2, str(seed), str(PACKRAT_COUNT), g if os.path.exists(g) else "/repo/grammar.y"]
+                r = subprocess.run(cmd, capture_output=True, text=True, timeout=900)
                 out[t2] = json.loads(r.stdout.strip().split("\n")[-1])
             except Exception as e:
                 out[t2] = {"error": repr(e)}
